@@ -960,8 +960,13 @@ func callBuiltin(caller *frame, callpos token.Pos, fn *ssa.Builtin, args []value
 			}
 			return arg0
 		}
-		// append([]T, ...[]T) []T
-		return append(args[0].([]value), args[1].([]value)...)
+		// append([]T, ...[]T) []T — struct and array elements are values: copy them, or the appended element would
+		// alias the source element (a later field store through &src[i] would show in the copy)
+		dst := args[0].([]value)
+		for _, v := range args[1].([]value) {
+			dst = append(dst, copyVal(v))
+		}
+		return dst
 
 	case "copy": // copy([]T, []T) int or copy([]byte, string) int
 		src := args[1]
@@ -971,7 +976,12 @@ func callBuiltin(caller *frame, callpos token.Pos, fn *ssa.Builtin, args []value
 			params := fn.Type().(*types.Signature).Params()
 			src = conv(params.At(0).Type(), params.At(1).Type(), src)
 		}
-		return copy(args[0].([]value), src.([]value))
+		dst := args[0].([]value)
+		n := copy(dst, src.([]value))
+		for i := 0; i < n; i++ {
+			dst[i] = copyVal(dst[i]) // de-alias struct and array elements (see append)
+		}
+		return n
 
 	case "close": // close(chan T)
 		close(args[0].(chan value))
